@@ -1,5 +1,9 @@
 //! datasets and queries for C13
 use crate::codec;
+use crate::measure;
+use sophia_api::prelude::*;
+use sophia_inmem::dataset::LightDataset;
+use vhcore::tgen::q_to_simple;
 use vhcore::util::*;
 use vhcore::GenCtx;
 
@@ -100,11 +104,12 @@ pub fn gen_dataset(rng: &mut Rng, pl: &Pools, with_other: bool, stats: &mut Stat
             3..=4 => 2,
             _ => 3,
         };
-        for _ in 0..copies {
+        for c in 0..copies {
             if quads.len() >= 12 {
                 break;
             }
-            let g = pl.graphs[rng.below(ngraphs)].clone();
+            // the default graph is what top-level patterns see: keep it populated
+            let g = if c == 0 && rng.chance(1, 2) { None } else { pl.graphs[rng.below(ngraphs)].clone() };
             let q = Q { s: s.clone(), p: p.clone(), o: o.clone(), g };
             if !quads.contains(&q) {
                 if q.g.is_some() && quads.iter().any(|x| x.s == q.s && x.p == q.p && x.o == q.o) {
@@ -115,6 +120,32 @@ pub fn gen_dataset(rng: &mut Rng, pl: &Pools, with_other: bool, stats: &mut Stat
         }
     }
     stats.bump(&format!("data.quads.{}", match quads.len() { 0 => "0", 1..=3 => "1-3", 4..=8 => "4-8", _ => "9-12" }));
+    quads
+}
+
+/// few terms, each occurring as subject *and* object (and `x:a` also as predicate), spread over the
+/// default graph and two named graphs: rows that differ only in WHICH variable is bound exist
+pub fn gen_dataset_compact(rng: &mut Rng, pl: &Pools, stats: &mut Stats) -> Vec<Q> {
+    let n = rng.range(2, 7);
+    let mut quads: Vec<Q> = vec![];
+    for _ in 0..n {
+        let s = rng.pick(&pl.nodes[..3]).clone();
+        let p = rng.pick(&pl.preds).clone();
+        let o = match rng.below(10) {
+            0..=6 => rng.pick(&pl.nodes[..3]).clone(),
+            7 => rng.pick(&pl.nodes).clone(),
+            _ => rng.pick(&pl.lits_core[..8]).clone(),
+        };
+        let copies = if rng.chance(1, 3) { 2 } else { 1 };
+        for c in 0..copies {
+            let g = if c == 0 && rng.chance(1, 2) { None } else { pl.graphs[rng.below(3)].clone() };
+            let q = Q { s: s.clone(), p: p.clone(), o: o.clone(), g };
+            if !quads.contains(&q) && quads.len() < 12 {
+                quads.push(q);
+            }
+        }
+    }
+    stats.bump("data.compact");
     quads
 }
 
@@ -143,7 +174,18 @@ fn sparql_term(t: &T) -> String {
 
 const VARS: &[&str] = &["s", "p", "o", "x", "g"];
 
+#[derive(Clone)]
+enum Ctx {
+    Default,
+    Named(T),
+    AnyNamed,
+}
+
 struct QG<'a> {
+    /// which graph(s) the BGP being generated will be matched against
+    ctx_graph: Ctx,
+    /// variables that occur in the patterns generated so far: expressions mostly read these
+    scope_vars: Vec<String>,
     rng: &'a mut Rng,
     pl: &'a Pools,
     /// the dataset the query will run on: most triple patterns are generalisations of one of its
@@ -181,6 +223,20 @@ impl QG<'_> {
         if self.rng.chance(2, 5) { self.var() } else { sparql_term(&self.rng.pick(&self.pl.preds).clone()) }
     }
 
+    /// the quads a BGP generated *here* can match: the default graph at the top level, one named
+    /// graph under `GRAPH <iri>`, any named graph under `GRAPH ?g`
+    fn candidates(&self) -> Vec<Q> {
+        self.data
+            .iter()
+            .filter(|q| match &self.ctx_graph {
+                Ctx::Default => q.g.is_none(),
+                Ctx::Named(n) => q.g.as_ref() == Some(n),
+                Ctx::AnyNamed => q.g.is_some(),
+            })
+            .cloned()
+            .collect()
+    }
+
     fn triples(&mut self, max: usize) -> String {
         self.bgp_no += 1;
         let n = match self.rng.below(10) {
@@ -194,12 +250,31 @@ impl QG<'_> {
         .min(self.tp_budget);
         self.tp_budget -= n;
         let mut s = String::new();
+        // most BGPs are *consistent generalisations* of triples of one graph of the data: the same
+        // data term becomes the same variable, and later patterns prefer triples that share a term
+        // with the earlier ones, so that the join of 2..4 patterns has no / one / many solutions
+        let mut cand = self.candidates();
+        if let Ctx::AnyNamed = self.ctx_graph {
+            if let Some(q0) = cand.first().cloned() {
+                let g0 = self.rng.pick(&cand).g.clone().or(q0.g);
+                cand.retain(|q| q.g == g0);
+            }
+        }
+        let anchored = !cand.is_empty() && self.rng.chance(4, 5);
+        let mut map: Vec<(T, String)> = vec![];
+        let mut used: Vec<Q> = vec![];
         for _ in 0..n {
-            if !self.data.is_empty() && self.rng.chance(3, 5) {
-                let q = self.rng.pick(self.data).clone();
-                let a = self.generalise(&q.s, 0, false);
-                let b = if self.rng.chance(1, 2) { sparql_term(&q.p) } else { self.var() };
-                let c = self.generalise(&q.o, 0, true);
+            if anchored && self.rng.chance(9, 10) {
+                let linked: Vec<Q> = cand
+                    .iter()
+                    .filter(|q| used.iter().any(|u| u.s == q.s || u.o == q.o || u.s == q.o || u.o == q.s))
+                    .cloned()
+                    .collect();
+                let q = if !linked.is_empty() && self.rng.chance(4, 5) { self.rng.pick(&linked).clone() } else { self.rng.pick(&cand).clone() };
+                let a = self.generalise(&q.s, 0, &mut map);
+                let b = if self.rng.chance(1, 2) { sparql_term(&q.p) } else { self.generalise(&q.p, 1, &mut map) };
+                let c = self.generalise(&q.o, 0, &mut map);
+                used.push(q);
                 s += &format!("{} {} {} . ", a, b, c);
                 continue;
             }
@@ -211,31 +286,71 @@ impl QG<'_> {
         s
     }
 
-    /// a pattern term that matches the data term `t`: the term itself, a variable, a placeholder,
-    /// or (for a quoted triple) a quoted pattern generalising its components
-    fn generalise(&mut self, t: &T, depth: usize, _object: bool) -> String {
+    /// a pattern term that matches the data term `t`: the term itself, a variable (the same one for
+    /// the same term within the BGP, mostly), a placeholder, or — for a quoted triple — a quoted
+    /// pattern generalising its components
+    fn generalise(&mut self, t: &T, depth: usize, map: &mut Vec<(T, String)>) -> String {
+        if let Some((_, v)) = map.iter().find(|(k, _)| k == t) {
+            if self.rng.chance(4, 5) {
+                return v.clone();
+            }
+        }
+        let mut fresh = |me: &mut Self, map: &mut Vec<(T, String)>| -> String {
+            // a variable not yet standing for another term (if one is left)
+            let free: Vec<&&str> = VARS.iter().filter(|v| !map.iter().any(|(_, u)| u[1..] == ***v)).collect();
+            let v = if !free.is_empty() && me.rng.chance(9, 10) { format!("?{}", me.rng.pick(&free)) } else { me.var() };
+            map.push((t.clone(), v.clone()));
+            if !me.scope_vars.contains(&v) {
+                me.scope_vars.push(v.clone());
+            }
+            v
+        };
         match t {
-            T::Triple(b) if self.rng.chance(1, 2) => {
-                let s = self.generalise(&b[0], depth + 1, false);
-                let p = if self.rng.chance(1, 2) { sparql_term(&b[1]) } else { self.var() };
-                let o = self.generalise(&b[2], depth + 1, true);
+            T::Triple(b) if depth == 0 && self.rng.chance(1, 2) => {
+                let s = self.generalise(&b[0], 1, map);
+                let p = if self.rng.chance(1, 2) { sparql_term(&b[1]) } else { self.generalise(&b[1], 1, map) };
+                let o = self.generalise(&b[2], 1, map);
                 format!("<< {} {} {} >>", s, p, o)
             }
             // a blank node of the data cannot be written as a constant (it would be a placeholder)
             T::Bnode(_) => {
-                if self.rng.chance(1, 3) { format!("_:l{}_{}", self.bgp_no, self.rng.below(2)) } else { self.var() }
+                if depth == 0 && self.rng.chance(1, 4) {
+                    let v = format!("_:l{}_{}", self.bgp_no, self.rng.below(2));
+                    if !map.iter().any(|(_, u)| *u == v) {
+                        map.push((t.clone(), v.clone()));
+                        return v;
+                    }
+                }
+                fresh(self, map)
             }
-            T::Triple(b) if b.iter().any(|x| matches!(x, T::Bnode(_))) => self.var(),
-            _ => match self.rng.below(10) {
-                0..=3 => sparql_term(t),
-                4..=7 => self.var(),
-                8 => format!("_:l{}_{}", self.bgp_no, self.rng.below(2)),
-                _ => "[]".to_string(),
+            T::Triple(b) if b.iter().any(|x| matches!(x, T::Bnode(_)) || x.depth() > 0) => fresh(self, map),
+            _ => match self.rng.below(20) {
+                0..=4 => sparql_term(t),
+                5..=16 => fresh(self, map),
+                17..=18 if depth == 0 => {
+                    let v = format!("_:l{}_{}", self.bgp_no, self.rng.below(2));
+                    if map.iter().any(|(_, u)| *u == v) {
+                        fresh(self, map)
+                    } else {
+                        map.push((t.clone(), v.clone()));
+                        v
+                    }
+                }
+                _ if depth == 0 => "[]".to_string(),
+                _ => fresh(self, map),
             },
         }
     }
 
     fn constant(&mut self) -> String {
+        // mostly a term of the data, so that comparisons hold for some rows and fail for others
+        if !self.data.is_empty() && self.rng.chance(3, 5) {
+            let q = self.rng.pick(self.data).clone();
+            let t = if self.rng.chance(2, 3) { q.o } else { q.s };
+            if !matches!(t, T::Bnode(_)) && t.depth() == 0 {
+                return sparql_term(&t);
+            }
+        }
         match self.rng.below(6) {
             0 => sparql_term(&self.rng.pick(&self.pl.nodes[..4]).clone()),
             1 => "1".into(),
@@ -245,15 +360,25 @@ impl QG<'_> {
     }
 
     /// expressions of the modelled core (and, rarely, outside it)
+    /// a variable for an expression: mostly one that the patterns bind
+    fn evar(&mut self) -> String {
+        if !self.scope_vars.is_empty() && self.rng.chance(17, 20) {
+            let vs = self.scope_vars.clone();
+            self.rng.pick(&vs).clone()
+        } else {
+            self.var()
+        }
+    }
+
     fn expr(&mut self, depth: usize) -> String {
         if depth == 0 {
-            return if self.rng.chance(2, 3) { self.var() } else { self.constant() };
+            return if self.rng.chance(2, 3) { self.evar() } else { self.constant() };
         }
         let d = depth - 1;
         match self.rng.below(26) {
-            0..=2 => self.var(),
+            0..=2 => self.evar(),
             3 => self.constant(),
-            4..=5 => format!("BOUND({})", self.var()),
+            4..=5 => format!("BOUND({})", self.evar()),
             6..=8 => format!("({} = {})", self.expr(d), self.expr(d)),
             9 => format!("sameTerm({}, {})", self.expr(d), self.expr(d)),
             10..=11 => format!("({} < {})", self.expr(d), self.expr(d)),
@@ -281,13 +406,29 @@ impl QG<'_> {
         }
     }
 
-    fn graph_name(&mut self) -> String {
-        match self.rng.below(10) {
-            0..=4 => "?g".to_string(),
-            5 => self.var(),
-            6..=7 => "<x:g1>".into(),
-            8 => "<x:g2>".into(),
-            _ => "<x:nosuch>".into(),
+    fn graph_name(&mut self) -> (String, Ctx) {
+        let named: Vec<T> = {
+            let mut v: Vec<T> = self.data.iter().filter_map(|q| q.g.clone()).filter(|g| matches!(g, T::Iri(_))).collect();
+            v.dedup();
+            v
+        };
+        match self.rng.below(20) {
+            0..=6 => ("?g".to_string(), Ctx::AnyNamed),
+            7 => (self.var(), Ctx::AnyNamed),
+            8..=9 if !named.is_empty() => {
+                let g = self.rng.pick(&named).clone();
+                (sparql_term(&g), Ctx::Named(g))
+            }
+            8..=9 => ("?g".to_string(), Ctx::AnyNamed),
+            10..=16 if !named.is_empty() => {
+                let g = self.rng.pick(&named).clone();
+                (sparql_term(&g), Ctx::Named(g))
+            }
+            10..=17 => {
+                let g = iri(if self.rng.chance(1, 2) { "x:g1" } else { "x:g2" });
+                (sparql_term(&g), Ctx::Named(g))
+            }
+            _ => ("<x:nosuch>".into(), Ctx::Named(iri("x:nosuch"))),
         }
     }
 
@@ -299,8 +440,26 @@ impl QG<'_> {
             s += &format!("BIND({} AS ?{}) ", e, v);
         }
         if self.rng.chance(2, 5) {
-            let d = self.rng.range(1, 3);
-            s += &format!("FILTER({}) ", self.expr(d));
+            if !self.scope_vars.is_empty() && self.rng.chance(1, 2) {
+                // a test on a bound variable that typically holds for some rows and fails for others
+                let v = self.evar();
+                let c = self.constant();
+                let t = match self.rng.below(9) {
+                    0 => format!("isIRI({})", v),
+                    1 => format!("isLiteral({})", v),
+                    2 => format!("isBlank({})", v),
+                    3 => format!("{} = {}", v, c),
+                    4 => format!("!sameTerm({}, {})", v, c),
+                    5 => format!("{} < 2", v),
+                    6 => format!("LANG({}) = \"en\"", v),
+                    7 => format!("DATATYPE({}) = <http://www.w3.org/2001/XMLSchema#integer>", v),
+                    _ => format!("!({} = {})", v, c),
+                };
+                s += &format!("FILTER({}) ", t);
+            } else {
+                let d = self.rng.range(1, 3);
+                s += &format!("FILTER({}) ", self.expr(d));
+            }
         }
         s
     }
@@ -318,8 +477,10 @@ impl QG<'_> {
                 format!("{{ {} UNION {} {}}}", a, b, self.tail())
             }
             15..=17 => {
-                let n = self.graph_name();
+                let (n, c) = self.graph_name();
+                let saved = std::mem::replace(&mut self.ctx_graph, c);
                 let g = self.group(depth - 1);
+                self.ctx_graph = saved;
                 format!("{{ GRAPH {} {} {}}}", n, g, self.tail())
             }
             18 => {
@@ -353,7 +514,108 @@ impl QG<'_> {
         vs.iter().map(|v| format!("?{}", v)).collect::<Vec<_>>().join(" ")
     }
 
+    /// one branch `S P O` over the variables `?x ?y ?z`, anchored in the data
+    fn hbranch(&mut self, p: &str, o_const: &str, shape: usize) -> String {
+        match shape {
+            0 => format!("?x {} {}", p, o_const),
+            1 => format!("?y {} {}", p, o_const),
+            2 => format!("?x {} ?y", p),
+            3 => format!("?x {} ?z", p),
+            4 => format!("?z {} ?y", p),
+            5 => format!("?y {} ?x", p),
+            6 => format!("?y {} ?z", p),
+            _ => format!("?z {} {}", p, o_const),
+        }
+    }
+
+    /// queries whose rows bind DIFFERENT sets of variables (UNION branches over different variables
+    /// sharing terms, BIND that errs on some rows, GRAPH ?g next to the default graph), under
+    /// DISTINCT / projection / ORDER BY / OFFSET-LIMIT
+    fn hetero_query(&mut self) -> String {
+        self.bgp_no = 0;
+        let (p, o_const) = if !self.data.is_empty() {
+            let q = self.rng.pick(self.data).clone();
+            let o = if matches!(q.o, T::Bnode(_)) || q.o.depth() > 0 { "<x:a>".to_string() } else { sparql_term(&q.o) };
+            (if self.rng.chance(1, 5) { "?p".to_string() } else { sparql_term(&q.p) }, o)
+        } else {
+            ("<x:p>".to_string(), "<x:a>".to_string())
+        };
+        let p2 = if self.rng.chance(1, 2) { p.clone() } else { sparql_term(&self.rng.pick(&self.pl.preds).clone()) };
+        let body = match self.rng.below(10) {
+            0..=4 => {
+                // UNION of 2..3 branches over different variables
+                let n = if self.rng.chance(1, 4) { 3 } else { 2 };
+                let mut bs = vec![];
+                let dup = self.rng.chance(3, 20);
+                let sh0 = self.rng.below(8);
+                for i in 0..n {
+                    let sh = if dup { sh0 } else { self.rng.below(8) };
+                    let pp = if i == 0 || dup { &p } else { &p2 };
+                    let b = self.hbranch(pp, &o_const, sh);
+                    bs.push(if self.rng.chance(1, 5) {
+                        format!("{{ GRAPH ?g {{ {} }} }}", b)
+                    } else if self.rng.chance(1, 6) {
+                        let gs: Vec<T> = self.data.iter().filter_map(|q| q.g.clone()).filter(|g| matches!(g, T::Iri(_))).collect();
+                        let g = if gs.is_empty() { iri("x:g1") } else { self.rng.pick(&gs).clone() };
+                        format!("{{ GRAPH {} {{ {} }} }}", sparql_term(&g), b)
+                    } else {
+                        format!("{{ {} }}", b)
+                    });
+                }
+                let f = match self.rng.below(8) {
+                    0 => " FILTER(BOUND(?x))",
+                    1 => " FILTER(!BOUND(?y))",
+                    _ => "",
+                };
+                format!("{{ {}{} }}", bs.join(" UNION "), f)
+            }
+            5..=7 => {
+                // BIND that errs on some rows
+                let e = *self.rng.pick(&["?y < 2", "STR(?y)", "LANG(?y)", "DATATYPE(?y)", "?y = 1", "?nosuch", "!?y", "?y = ?x"][..]);
+                let v = *self.rng.pick(&["z", "g"][..]);
+                format!("{{ ?x {} ?y BIND({} AS ?{}) }}", p, e, v)
+            }
+            _ => {
+                // GRAPH ?g next to the default graph
+                let sh = self.rng.below(8);
+                let b = self.hbranch(&p, &o_const, sh);
+                let sh2 = self.rng.below(8);
+                let b2 = self.hbranch(&p2, &o_const, sh2);
+                format!("{{ {{ GRAPH ?g {{ {} }} }} UNION {{ {} }} }}", b, b2)
+            }
+        };
+        if self.rng.chance(1, 20) {
+            return format!("ASK {}", body);
+        }
+        let vs = if self.rng.chance(3, 10) {
+            "*".to_string()
+        } else {
+            let mut pool = vec!["x", "y", "z", "g"];
+            let k = self.rng.range(2, 3);
+            let mut out = vec![];
+            for _ in 0..k {
+                let i = self.rng.below(pool.len());
+                out.push(format!("?{}", pool.remove(i)));
+            }
+            out.join(" ")
+        };
+        let d = if self.rng.chance(7, 10) { "DISTINCT " } else { "" };
+        let mut q = format!("SELECT {}{} WHERE {}", d, vs, body);
+        if self.rng.chance(3, 20) {
+            q += " ORDER BY ?x ?y";
+        }
+        if self.rng.chance(3, 20) {
+            if self.rng.chance(1, 2) {
+                q += &format!(" OFFSET {}", self.rng.below(3));
+            }
+            q += &format!(" LIMIT {}", self.rng.range(1, 4));
+        }
+        q
+    }
+
     fn query(&mut self) -> String {
+        self.ctx_graph = Ctx::Default;
+        self.scope_vars.clear();
         self.tp_budget = 4;
         self.bgp_no = 0;
         let depth = match self.rng.below(10) {
@@ -371,6 +633,17 @@ impl QG<'_> {
             vs += &format!(" ({} AS ?w)", e);
         }
         let d = if self.rng.chance(1, 3) { "DISTINCT " } else { "" };
+        if !d.is_empty() && !self.scope_vars.is_empty() && self.rng.chance(3, 5) {
+            // DISTINCT over one or two of the pattern's variables: duplicates to remove
+            let k = self.rng.range(1, 2).min(self.scope_vars.len());
+            let mut pool = self.scope_vars.clone();
+            let mut out = vec![];
+            for _ in 0..k {
+                let i = self.rng.below(pool.len());
+                out.push(pool.remove(i));
+            }
+            vs = out.join(" ");
+        }
         let mut q = format!("SELECT {}{} WHERE {}", d, vs, g);
         if self.rng.chance(1, 10) {
             q += " ORDER BY ?s DESC(?o)";
@@ -554,7 +827,7 @@ pub fn generate(ctx: &mut GenCtx) {
     };
     for text in FIXED {
         for ds in &fixed_sets {
-            emit_text(ctx, ds, text, "fixed");
+            emit_text(ctx, ds, text, "fixed", None);
         }
     }
     for d in DIRECT {
@@ -564,19 +837,31 @@ pub fn generate(ctx: &mut GenCtx) {
         }
     }
     let n = if ctx.thorough { 30000 } else { 2500 };
+    // effectiveness is measured (on the real engine) for the first queries only: it costs a few
+    // evaluations per query
+    let mut measure_budget = 3000usize;
     let mut i = 0;
     let mut attempts = 0;
     while i < n && attempts < 20 * n {
         attempts += 1;
-        let with_other = ctx.rng.chance(1, 4);
-        let ds = gen_dataset(&mut ctx.rng, &pl, with_other, &mut ctx.stats);
+        let compact = ctx.rng.chance(1, 3);
+        let ds = if compact {
+            gen_dataset_compact(&mut ctx.rng, &pl, &mut ctx.stats)
+        } else {
+            let with_other = ctx.rng.chance(1, 4);
+            gen_dataset(&mut ctx.rng, &pl, with_other, &mut ctx.stats)
+        };
+        let light = light_of(&ds);
         // several queries per dataset
         for _ in 0..3 {
+            let hetero = compact || ctx.rng.chance(1, 5);
             let text = {
-                let mut g = QG { rng: &mut ctx.rng, pl: &pl, data: &ds, bgp_no: 0, tp_budget: 4 };
-                g.query()
+                let mut g = QG { ctx_graph: Ctx::Default, scope_vars: vec![], rng: &mut ctx.rng, pl: &pl, data: &ds, bgp_no: 0, tp_budget: 4 };
+                if hetero { g.hetero_query() } else { g.query() }
             };
-            if emit_text(ctx, &ds, &text, "gen") {
+            let meas = if measure_budget > 0 { Some(&light) } else { None };
+            if emit_text(ctx, &ds, &text, if hetero { "gen.hetero" } else { "gen" }, meas) {
+                measure_budget = measure_budget.saturating_sub(1);
                 i += 1;
                 if i <= 3 {
                     ctx.stats.sample(text.clone());
@@ -604,7 +889,16 @@ fn shape_stats(stats: &mut Stats, alg: &str, text: &str) {
     }
 }
 
-fn emit_text(ctx: &mut GenCtx, ds: &[Q], text: &str, tag: &str) -> bool {
+fn light_of(ds: &[Q]) -> LightDataset {
+    let mut l = LightDataset::new();
+    for q in ds {
+        let (spo, g) = q_to_simple(q);
+        let _ = l.insert(&spo[0], &spo[1], &spo[2], g.as_ref()).unwrap();
+    }
+    l
+}
+
+fn emit_text(ctx: &mut GenCtx, ds: &[Q], text: &str, tag: &str, meas: Option<&LightDataset>) -> bool {
     let q = match spargebra::Query::parse(text, None) {
         Ok(q) => q,
         Err(_) => {
@@ -614,6 +908,9 @@ fn emit_text(ctx: &mut GenCtx, ds: &[Q], text: &str, tag: &str) -> bool {
     };
     match codec::ser_query(&q) {
         Ok(alg) => {
+            if let Some(l) = meas {
+                measure::measure(&mut ctx.stats, l, &q);
+            }
             shape_stats(&mut ctx.stats, &alg, text);
             ctx.stats.bump(&format!("{}.q", tag));
             ctx.emit(&format!("q {} {}", render_dataset(ds), alg));
